@@ -1194,7 +1194,7 @@ def subclass_spec_as_namespace(val, prev_val=None):
         val = Namespace({root_key: val})
         if isinstance(prev_val, str):
             prev_val = Namespace(class_path=prev_val)
-    if isinstance(val, dict):
+    if isinstance(val, (dict, Namespace)):
         val = Namespace(val)
     if "init_args" in val and isinstance(val["init_args"], dict):
         val["init_args"] = Namespace(val["init_args"])
